@@ -597,7 +597,7 @@ PROP_META["C07"] = {
 }
 for (N, C, B, tiers, cap, cost) in [(32, 8, 6, ("quick",), (900, 0), 300), (32, 8, 8, ("thorough",), (0, 1800), 500),
                                     (32, 8, 12, ("thorough",), (0, 2400), 900), (32, 8, 16, ("thorough",), (0, 3000), 1500),
-                                    (64, 16, 6, ("quick",), (900, 0), 300), (64, 16, 8, ("thorough",), (0, 2400), 600),
+                                    (64, 16, 4, ("quick",), (900, 0), 300), (64, 16, 6, ("thorough",), (0, 2400), 900), (64, 16, 8, ("thorough",), (0, 2400), 600),
                                     (64, 16, 12, ("thorough",), (0, 3000), 1200)]:
     K("c07_kernel%d_b%d" % (N, B), "C07", M_DUAL, cfg="release", tiers=tiers, cap=cap, cost=cost, mem=12,
       unwindset=dual_rules(n_in=B + 1, n_rle=C + 1), shape="BMC",
@@ -629,7 +629,7 @@ for (N, C) in [(32, 8), (64, 16)]:
       bound="arbitrary RLE block (2 free symbols) on every valid normalized block hash of <= 8 symbols: accepted => canonical",
       enc=["is_valid_rle_block_for_block_hash::<%d,%d>" % (N, C), "expand_block_hash_using_rle", "compress_block_hash_with_rle"],
       assumptions=[ASSUME_SYM])
-K("c07_object_build_short_m4", "C07", M_DUAL, cfg="release", tiers=("quick",), cap=(900, 0), cost=400, mem=14,
+K("c07_object_build_short_m4", "C07", M_DUAL, cfg="release", tiers=("thorough",), cap=(0, 2400), cost=900, mem=24,
   unwindset=dual_rules(n_in=5, n_rle=17) + alg_rules(n_norm=5, n_verify=6), shape="BMC",
   bound="re-initialising a dirty dual object gives the same valid object as a fresh build; short type, raw block hashes <= 4 symbols",
   enc=["FuzzyHashDualData::from_raw_form", "init_from_raw_form", "is_valid"], assumptions=[ASSUME_SYM])
@@ -874,14 +874,17 @@ K("c10_window_injective", "C10", M_BLOCK, shape="full domain", cap=(300, 600), c
 # C04 (dual types), C07 (parser route), C14 (feature matrix)
 # ------------------------------------------------------------------------------------
 DUAL_PARSE_RULES = alg_rules(n_text=42, n_verify=42) + dual_rules(n_in=42, n_rle=17)
-for (nm, T, tiers, uw) in [("c04_dual_like_raw_short_t40", 40, ("quick", "thorough"), 42), ("c04_dual_like_raw_short_t12", 12, ("thorough",), 14),
+for (nm, T, tiers, uw) in [("c04_dual_like_raw_short_fixed40", 40, ("quick", "thorough"), 42),
+                           ("c04_dual_like_raw_short_t40", 41, ("thorough",), 42), ("c04_dual_like_raw_short_t12", 12, ("thorough",), 14),
                            ("c04_dual_like_raw_long_t12", 12, ("thorough",), 14), ("c04_dual_like_raw_long_cap64", 70, ("thorough",), 72)]:
     K(nm, "C04", M_DUAL, cfg="release", tiers=tiers, cap=(900, 2400), cost=500, mem=14, stubbing=True,
       unwindset=alg_rules(n_text=uw, n_verify=uw), shape="BMC",
       bound="dual parser == raw parser of the same capacity (accepted set, end index, error kind/origin/offset; compress "
             "precondition raw length <= capacity) on every text of <= %d bytes%s; compress_block_hash_with_rle replaced by a "
             "stub that checks its precondition (its result is decided by the C07 kernel queries)"
-            % (T, {40: " starting with '3::' (block hash 2 reaches and exceeds 32 symbols)",
+            % (T if T != 41 else 40,
+               {40: " of exactly 40 bytes starting with '3::' (block hash 2 reaches and exceeds 32 symbols; shorter fields via a ',name' tail)",
+                41: " starting with '3::', every length 3..40",
                    70: " starting with '3::' + 62 fixed symbols (block hash 2 reaches and exceeds 64 symbols)"}.get(T, "")),
       enc=["FuzzyHashDualData::from_bytes_with_last_index", "FuzzyHashDualData::from_raw_form (compress stubbed)",
            "FuzzyHashData<_,_,false>::from_bytes_with_last_index"])
@@ -1110,9 +1113,9 @@ K("c06_dual_route_kernel32_b6", "C06", M_DUAL, fn="c07_kernel32_b6", cfg="releas
   unwindset=dual_rules(n_in=7, n_rle=9), shape="BMC",
   bound="normalized part produced by the dual route (compress ::<32,8>) == spec_norm, raw length <= 6",
   enc=["compress_block_hash_with_rle::<32,8>"], assumptions=[ASSUME_SYM])
-K("c06_dual_route_kernel64_b6", "C06", M_DUAL, fn="c07_kernel64_b6", cfg="release", tiers=("quick",), cap=(900, 0), cost=300, mem=12,
+K("c06_dual_route_kernel64_b4", "C06", M_DUAL, fn="c07_kernel64_b4", cfg="release", tiers=("quick",), cap=(900, 0), cost=300, mem=12,
   unwindset=dual_rules(n_in=7, n_rle=17), shape="BMC",
-  bound="normalized part produced by the dual route (compress ::<64,16>) == spec_norm, raw length <= 6",
+  bound="normalized part produced by the dual route (compress ::<64,16>) == spec_norm, raw length <= 4",
   enc=["compress_block_hash_with_rle::<64,16>"], assumptions=[ASSUME_SYM])
 K("c06_dual_route_kernel32_b12", "C06", M_DUAL, fn="c07_kernel32_b12", cfg="release", tiers=("thorough",), cap=(0, 2400), cost=900, mem=12,
   unwindset=dual_rules(n_in=13, n_rle=9), shape="BMC",
@@ -1156,10 +1159,10 @@ K("c04_dual_capacity_bh2_short_tail", "C04", M_DUAL, cfg="release", tiers=("thor
   bound="dual parser, capacity class: '3::' + 29 fixed pairwise different symbols + every byte string of <= 8 bytes (block hash 2 "
         "reaches and exceeds 32 symbols raw, with runs that collapse)",
   enc=["FuzzyHashDualData::from_bytes_with_last_index", "from_raw_form", "to_raw_form", "is_valid"])
-K("c11_dual_parser_like_raw_t40", "C11", M_DUAL, fn="c04_dual_like_raw_short_t40", cfg="release", cap=(900, 2400), cost=500, mem=14, stubbing=True,
+K("c11_dual_parser_like_raw_fixed40", "C11", M_DUAL, fn="c04_dual_like_raw_short_fixed40", cfg="release", cap=(900, 2400), cost=500, mem=14, stubbing=True,
   unwindset=alg_rules(n_text=42, n_verify=42), shape="BMC",
   bound="the dual parser never accepts (or panics on) a text the raw parser of the same capacity rejects, and hands compress "
-        "only block hashes within capacity: '3::' + every <= 37 bytes (compress stubbed)",
+        "only block hashes within capacity: '3::' + every 37 bytes (compress stubbed)",
   enc=["FuzzyHashDualData::from_bytes_with_last_index"])
 K("c11_dual_parser_valid_tail", "C11", M_DUAL, fn="c04_dual_capacity_bh2_short_tail", cfg="release", tiers=("thorough",), cap=(900, 3600), cost=2000, mem=14,
   unwindset=alg_rules(n_text=42, n_verify=42) + dual_rules(n_in=42, n_rle=17), shape="BMC",
@@ -1167,7 +1170,11 @@ K("c11_dual_parser_valid_tail", "C11", M_DUAL, fn="c04_dual_capacity_bh2_short_t
   enc=["FuzzyHashDualData::from_bytes_with_last_index"])
 
 for (a, b) in [(3, 3), (30, 30)]:
-    K("c10_c_s_m7_%d_%d" % (a, b), "C10", M_CMP, cfg="release", cap=(900, 2400), cost=500, mem=12, unwindset=C02_RULES, shape="BMC",
+    K("c10_c_s_m7a4_%d_%d" % (a, b), "C10", M_CMP, cfg="release", tiers=("quick",), cap=(1500, 0), cost=300, mem=12, unwindset=C02_RULES, shape="BMC",
+      bound="score > 0 <=> equal or candidate; candidate <=> index windows intersect; equal block sizes (3<<%d), block hashes <= 7 symbols over a 4-symbol alphabet" % a,
+      enc=["FuzzyHashCompareTarget::is_comparison_candidate(_near_eq)", "compare", "block_hash_{1,2}_index_windows"],
+      assumptions=[ASSUME_SYM, "both hashes valid and normalized (spec_valid)"])
+    K("c10_c_s_m7_%d_%d" % (a, b), "C10", M_CMP, cfg="release", tiers=("thorough",), cap=(900, 3600), cost=500, mem=12, unwindset=C02_RULES, shape="BMC",
       bound="score > 0 <=> equal or candidate; candidate <=> index windows intersect; equal block sizes (3<<%d), block hashes <= 7 symbols" % a,
       enc=["FuzzyHashCompareTarget::is_comparison_candidate(_near_eq)", "compare", "block_hash_{1,2}_index_windows"],
       assumptions=[ASSUME_SYM, "both hashes valid and normalized (spec_valid)"])
